@@ -246,6 +246,9 @@ def generate(seed, batch):
             scen['struct']['nan_radius'] = None
         scen['faults'] = gen_faults(rng, 0.05)
         scen['repeat'] = rng.random() < 0.15
+        if rng.random() < 0.15:
+            scen['force_unit'] = 10 ** rng.uniform(-16, 9)
+            scen['knobs']['absTOL'] = scen['knobs']['absTOL'] * scen['force_unit']
     elif batch == 'R':
         knobs = gen_knobs(rng, False)
         knobs['minInc'] = max(knobs['minInc'], 0.01)
@@ -789,8 +792,18 @@ def build_world_P(scen, mon, res):
             bump(res['faults'], 'nan_residual')
         return out
 
+    u = float(scen.get('force_unit') or 1.0)
+    if u != 1.0:
+        # the same structure in another force unit: stiffness, loads and the tolerance all carry the factor u, the
+        # displacements are unchanged (nano-newtons or giga-newtons instead of newtons)
+        _fe, _fi, _tp = fext_pure, fint_pure, tangent_pure
+        fext_pure = lambda inc=1.: u * _fe(inc)                # noqa: E731
+        fint_pure = lambda c, inc=1.: u * _fi(c, inc)          # noqa: E731
+        tangent_pure = lambda c: u * _tp(c)                    # noqa: E731
+        K = csr_matrix(u * Kd)
+        bump(res['probes'], 'force_unit_1e%+d' % int(round(math.log10(u))))
     mon.pure = (fext_pure, fint_pure)
-    return calc_fext, calc_k0, calc_fint, calc_kT, (Kd, f, f0)
+    return calc_fext, calc_k0, calc_fint, calc_kT, (u * Kd, u * f, u * f0)
 
 
 def build_world_R(scen, mon, res):
